@@ -11,7 +11,7 @@ THEOREMS = [("FlatModel.Props.C16", t) for t in (
     "FC.C16.list_state_preserved", "FC.C16.columns_preserved", "FC.C16.stack_preserved")]
 THEOREMS += [("FlatModel.Props.UniverseSer", "FC.Universe." + t) for t in ("C16_every_composition", "C16_reachable", "C16_reach", "C16_twice", "C16_every_shape", "C16_every_index_container")]
 LEAN_TARGETS = ["FlatModel.Generated.CoveredSer", "FlatModel.Generated.CoveredOps", "FlatModel.Generated.CoveredUniverseOps"]
-PROFILES = {"quick": ["checked"], "thorough": ["checked", "wrapping"], "search": ["checked"]}
+PROFILES = {"quick": ["checked", "wrapping"], "thorough": ["checked", "wrapping"], "search": ["checked"]}
 RULE = ("histories on every serde-enabled entry, FlatStack and index container, serialised with serde_json at an arbitrary point and "
         "deserialised; both copies are driven through the same continuation: returned indices, reads, used heap bytes (index "
         "compression and deduplication decisions) compared step by step; the serialised tree of the real region is compared "
